@@ -27,7 +27,7 @@ fn any_epoch() -> f64 {
     }
 }
 
-//@h {"id":"C07.K.helmert.epoch","props":["C07","C02"],"tier":"quick","kind":"bounded","bound":"3 tuples; epochs chosen symbolically (in any order, with repeats) from {t_epoch, t_epoch+1, t_epoch+4, NaN}; coordinates: probe tuples; parameters: power-of-two probes T, DT, S, DS","timeout":900,"text":"translation+scale rates, no rotation: tuple i of a mixed-epoch set is transformed with T + (t_i - t_epoch)*DT and S + (t_i - t_epoch)*DS, bit-exact, in both directions -- i.e. batch == singletons; 4th coordinate untouched; count = n"}
+//@h {"id":"C07.K.helmert.epoch","props":["C07","C02","C10"],"tier":"quick","kind":"bounded","bound":"3 tuples; epochs chosen symbolically (in any order, with repeats) from {t_epoch, t_epoch+1, t_epoch+4, NaN}; coordinates: probe tuples; parameters: power-of-two probes T, DT, S, DS","timeout":900,"text":"translation+scale rates, no rotation: tuple i of a mixed-epoch set is transformed with T + (t_i - t_epoch)*DT and S + (t_i - t_epoch)*DS, bit-exact, in both directions -- i.e. batch == singletons; 4th coordinate untouched; count = n"}
 #[kani::proof]
 #[kani::unwind(20)]
 #[kani::stub(crate::op::ParsedParameters::boolean, stub_boolean)]
